@@ -38,6 +38,7 @@ def run(ctx, rep):
     # "pass through unchanged ... in their original scope": nothing that existed before is modified in place
     rep.run(RA.rule_mutate_only_fresh, ctx, rep, "N7", "gtwrap/template_instantiator", P1_EXEMPT, min_sites=20)
     rep.run(RF.rule_namespace_path_lookup, ctx, rep, "N2")
+    rep.run(RI.rule_instantiated_siblings, ctx, rep, "N9")
     rep.run(RT.rule_no_reorder, ctx, rep, "N8")
     rep.run(RT.rule_lists_kept_whole, ctx, rep, "N8")
     rep.run(RF.rule_locals_defined, ctx, rep, "U1", packages=("gtwrap/template_instantiator",), min_functions=3)
